@@ -195,7 +195,11 @@ fn static_nestings<T: Scalar>(st: &mut Stats, sink: &Sink) {
                     st.transitions += 3;
                     st.oracle_evals += 2;
                     let Ok((l, r, i)) = r else { continue };
-                    let i = i.expect("inner reports");
+                    let Some(i) = i else {
+                        let spec = Spec::bin(Kind::$inner, Spec::echo(), Spec::constant(c1));
+                        sink.push(Violation::new("C14", &spec, "pointwise", T::NAME, &[x], format!("{} of the input and the constant {} reports nothing after an update although both children report", stringify!($inner), c1)));
+                        return;
+                    };
                     let want_l = i $op_o T::of(c2);
                     let want_r = T::of(c2) $op_o i;
                     let _ = stringify!($op_i);
